@@ -172,7 +172,7 @@ def gen_plan(rng, w):
         elif y < 0.98:
             plan.append(('msg', dict(kind=rng.choice(['service_request', 'bad_ignore']))))
         else:
-            plan.append(('msg', dict(kind='raw', hex=rng.choice(['32', '3200000001', '33', '14']))))
+            plan.append(('msg', dict(kind='raw', hex=rng.choice(['32', '3200000001', '33', '06']))))
     if rng.random() < 0.5:
         # something after the history: connection-layer traffic and a late request
         plan.append(('msg', dict(kind=rng.choice(['chan_open', 'global']))))
